@@ -86,6 +86,19 @@ pub fn kind_extended() -> impl Strategy<Value = OpKind> {
         1 => Just(OpKind::Statx),
         1 => any::<bool>().prop_map(|v6| OpKind::Connect { v6 }),
         3 => kind_args(),
+        3 => kind_paths(),
+    ]
+}
+
+/// Operations that do not go through a descriptor: path strings, and the
+/// siginfo out-parameter of waitid; plus bind (address storage).
+pub fn kind_paths() -> impl Strategy<Value = OpKind> {
+    prop_oneof![
+        2 => (0u8..200).prop_map(|len| OpKind::CreateDir { len }),
+        2 => (0u8..200, any::<bool>()).prop_map(|(len, dir)| OpKind::Remove { len, dir }),
+        2 => (0u8..200, 0u8..200).prop_map(|(a, b)| OpKind::Rename { a, b }),
+        1 => any::<bool>().prop_map(|v6| OpKind::Bind { v6 }),
+        2 => any::<u16>().prop_map(|pid| OpKind::Wait { pid }),
     ]
 }
 
